@@ -12,13 +12,17 @@ package main
 //     property itself: a failure is a found input.
 
 import (
+	"bytes"
+	"context"
 	"crypto/sha512"
 	"fmt"
 	"os"
+	"os/exec"
 	"path/filepath"
 	"regexp"
 	"sort"
 	"strings"
+	"sync/atomic"
 	"time"
 )
 
@@ -41,18 +45,56 @@ type c03Problem struct {
 }
 
 type c03Eval struct {
-	Problems      []c03Problem
-	Logs          map[string]*fileLog
-	Changed       []string
-	Abnormal      string
-	FilesChecked  int
-	Reloads       map[string]int // file -> number of save-and-load-again points needed
-	Undecided     []string       // not consistent in one piece, and too many states to try reload points
-	UndecidedSort []string       // not consistent in one piece, and the log goes on after a sort
-	ModeOnly      []string
+	Problems        []c03Problem
+	Logs            map[string]*fileLog
+	Changed         []string
+	Abnormal        string
+	FilesChecked    int
+	Reloads         map[string]int // file -> number of save-and-load-again points needed
+	Undecided       []string       // not consistent in one piece, and too many states to try reload points
+	UndecidedBudget []string       // the search with reload points ran out of its time budget
+	UndecidedSort   []string       // not consistent in one piece, and the log goes on after a sort
+	ModeOnly        []string
 }
 
 const c03MaxReloads = 2
+
+// budgets: one oracle call of the reload search may take c03FileBudget; all of them
+// together c03SearchBudget per check run (quick), after which files stay undecided
+const c03FileBudget = 6 * time.Second
+
+var c03SearchSpent int64 // nanoseconds, all workers
+
+func c03SearchBudget(ctx *Ctx) time.Duration {
+	if ctx.Tier == "thorough" {
+		return 10 * time.Minute
+	}
+	return 40 * time.Second
+}
+
+// oracleTimed runs the requests through the c03 oracle with a wall-clock limit.
+func oracleTimed(ctx *Ctx, reqs []string, limit time.Duration) (ans []string, timedOut bool, err error) {
+	c, cancel := context.WithTimeout(context.Background(), limit)
+	defer cancel()
+	cmd := exec.CommandContext(c, filepath.Join(ctx.Oracle, "c03"))
+	cmd.Stdin = strings.NewReader(strings.Join(reqs, "\n") + "\n")
+	var ob bytes.Buffer
+	cmd.Stdout = &ob
+	t0 := time.Now()
+	runErr := cmd.Run()
+	atomic.AddInt64(&c03SearchSpent, int64(time.Since(t0)))
+	if c.Err() == context.DeadlineExceeded {
+		return nil, true, nil
+	}
+	if runErr != nil {
+		return nil, false, fmt.Errorf("oracle c03: %v", runErr)
+	}
+	ans = strings.Split(strings.TrimRight(ob.String(), "\n"), "\n")
+	if len(ans) != len(reqs) {
+		return nil, false, fmt.Errorf("oracle c03: %d answers for %d requests", len(ans), len(reqs))
+	}
+	return ans, false, nil
+}
 
 // c03Evaluate applies the extracted specification to one observed run.
 func c03Evaluate(ctx *Ctx, root string, cfg wrConfig, before, after map[string]fileState, r RunResult) (*c03Eval, error) {
@@ -118,9 +160,15 @@ func c03Evaluate(ctx *Ctx, root string, cfg wrConfig, before, after map[string]f
 	if len(reqs) == 0 {
 		return ev, nil
 	}
-	ans, err := runOracle(ctx, "c03", reqs)
+	ans, late, err := oracleTimed(ctx, reqs, 30*time.Second)
 	if err != nil {
 		return ev, err
+	}
+	if late { // never seen; the line-by-line check is linear except for many empty-"from" entries on one line
+		for _, p := range pend {
+			ev.UndecidedBudget = append(ev.UndecidedBudget, p.rel)
+		}
+		return ev, nil
 	}
 	ok := map[string]bool{}
 	for i, p := range pend {
@@ -159,7 +207,7 @@ func c03Evaluate(ctx *Ctx, root string, cfg wrConfig, before, after map[string]f
 			}
 			est *= float64(occ)
 		}
-		if est > 2e4 || len(p.entries) > 40 {
+		if est > 3e5 || len(p.entries) > 40 {
 			ev.Undecided = append(ev.Undecided, p.rel)
 			continue
 		}
@@ -175,17 +223,28 @@ func c03Evaluate(ctx *Ctx, root string, cfg wrConfig, before, after map[string]f
 			ev.UndecidedSort = append(ev.UndecidedSort, p.rel)
 			continue
 		}
-		for rl := 1; rl <= c03MaxReloads && !solved; rl++ {
-			ans2, err := runOracle(ctx, "c03", []string{consRequest(rl, b.Data, logs[p.rel].Entries, a.Data)})
+		outOfBudget := false
+		for rl := 1; rl <= c03MaxReloads && !solved && !outOfBudget; rl++ {
+			if time.Duration(atomic.LoadInt64(&c03SearchSpent)) > c03SearchBudget(ctx) {
+				outOfBudget = true
+				break
+			}
+			ans2, late, err := oracleTimed(ctx, []string{consRequest(rl, b.Data, logs[p.rel].Entries, a.Data)}, c03FileBudget)
 			if err != nil {
 				return ev, err
 			}
-			if ans2[0] == "1" {
+			if late {
+				outOfBudget = true
+			} else if ans2[0] == "1" {
 				solved = true
 				ev.Reloads[p.rel] = rl
 			}
 		}
 		if solved {
+			continue
+		}
+		if outOfBudget {
+			ev.UndecidedBudget = append(ev.UndecidedBudget, p.rel)
 			continue
 		}
 		key := "C03/log-mismatch/" + fileClass(p.rel)
@@ -476,7 +535,7 @@ func c03Corpus(ctx *Ctx, res *Result) {
 		res.Evaluations++
 		res.TracesValidated++
 		res.Count("W.corpus_scenarios", 1)
-		if ev.Abnormal != "" || len(ev.Undecided)+len(ev.UndecidedSort) > 0 {
+		if ev.Abnormal != "" || len(ev.Undecided)+len(ev.UndecidedSort)+len(ev.UndecidedBudget) > 0 {
 			res.AddViolation(Violation{Key: "C03/corpus/" + sc.name + "/undecided", What: "corpus scenario " + sc.name + " could not be judged: " + ev.Abnormal, FoundInput: false,
 				Replay: map[string]any{"broken": "corpus scenario not decidable", "scenario": sc.name}})
 		}
@@ -571,6 +630,7 @@ func c03Whole(ctx *Ctx, res *Result, rng *Rng) {
 		res.Count("W.mode_only_changes", len(j.ev.ModeOnly))
 		res.Count("W.files_undecided_too_many_states", len(j.ev.Undecided))
 		res.Count("W.files_undecided_examined_again_after_sort", len(j.ev.UndecidedSort))
+		res.Count("W.files_undecided_search_budget", len(j.ev.UndecidedBudget))
 		for rel, rl := range j.ev.Reloads {
 			res.Count(fmt.Sprintf("W.files_needing_%d_reloads", rl), 1)
 			if len(reloadExamples) < 6 {
@@ -611,6 +671,7 @@ func c03Whole(ctx *Ctx, res *Result, rng *Rng) {
 	}
 	res.DistinctNontrivial += nontrivial
 	res.Count("W.runs", ntrees)
+	res.Count("W.oracle_search_ms", int(time.Duration(atomic.LoadInt64(&c03SearchSpent)).Milliseconds()))
 	res.Count("W.runs_with_autofix_lines", nontrivial)
 	res.Count("W.distinct_diag_kinds_with_fix", len(diagKinds))
 	res.Count("W.distinct_action_kinds", len(actionKinds))
